@@ -221,6 +221,12 @@ func edgeFormula(pb *predBuilder, p, b *ssa.BasicBlock) formula {
 // back edges (so for a site in a loop body with from = the body's entry it is
 // the per-iteration condition).
 func (pb *predBuilder) pathCond(from, to *ssa.BasicBlock) formula {
+	return pb.pathCondAvoid(from, to, nil)
+}
+
+// pathCondAvoid is pathCond restricted to paths that do not pass through any
+// of the avoided blocks (other than from/to themselves).
+func (pb *predBuilder) pathCondAvoid(from, to *ssa.BasicBlock, avoid map[*ssa.BasicBlock]bool) formula {
 	memo := map[*ssa.BasicBlock]formula{}
 	var rc func(b *ssa.BasicBlock, stack map[*ssa.BasicBlock]bool) formula
 	rc = func(b *ssa.BasicBlock, stack map[*ssa.BasicBlock]bool) formula {
@@ -243,6 +249,9 @@ func (pb *predBuilder) pathCond(from, to *ssa.BasicBlock) formula {
 				continue
 			}
 			if !(from == p || from.Dominates(p)) {
+				continue
+			}
+			if avoid[p] && p != from {
 				continue
 			}
 			f = mkOr(f, mkAnd(rc(p, stack), edgeFormula(pb, p, b)))
@@ -414,4 +423,125 @@ func (c *Ctx) checkTable(rule, construct string, pos token.Pos, f formula, boolA
 		c.okRows(rule, construct, pos, r.Rows, "guard %s == spec %s on all %d rows", f, specText, r.Rows)
 		return true
 	}
+}
+
+
+// forAll enumerates every assignment of the atoms occurring in f (booleans:
+// both values; integer terms: the given domain, default 0..2) and reports the
+// first assignment for which holds(e, f(e)) is false. Atoms the rule does not
+// know are simply free variables here: the claim is universally quantified.
+func forAll(f formula, intDomain map[string][]int64, holds func(e env, fv bool) bool) (rows int, counter string) {
+	fb, fi := map[string]bool{}, map[string]bool{}
+	atomsOf(f, fb, fi)
+	bools, ints := sortedKeys(fb), sortedKeys(fi)
+	if len(bools) > 18 {
+		return 0, fmt.Sprintf("formula has %d boolean atoms: too large to enumerate", len(bools))
+	}
+	e := env{B: map[string]bool{}, I: map[string]int64{}}
+	var rec func(bi, ii int)
+	rec = func(bi, ii int) {
+		if counter != "" {
+			return
+		}
+		if bi < len(bools) {
+			for _, v := range []bool{false, true} {
+				e.B[bools[bi]] = v
+				rec(bi+1, ii)
+			}
+			return
+		}
+		if ii < len(ints) {
+			dom := intDomain[ints[ii]]
+			if dom == nil {
+				dom = []int64{0, 1, 2}
+				if strings.Contains(ints[ii], ".Kind(") {
+					dom = allKinds // a reflect.Kind term: every kind
+				}
+			}
+			for _, v := range dom {
+				e.I[ints[ii]] = v
+				rec(bi, ii+1)
+			}
+			return
+		}
+		rows++
+		if !holds(e, evalF(f, e)) {
+			var parts []string
+			for _, a := range bools {
+				parts = append(parts, fmt.Sprintf("%s=%v", a, e.B[a]))
+			}
+			for _, a := range ints {
+				parts = append(parts, fmt.Sprintf("%s=%d", a, e.I[a]))
+			}
+			counter = "{" + strings.Join(parts, " ") + "}"
+		}
+	}
+	rec(0, 0)
+	return
+}
+
+// reflect.Kind values (go1.x, stable)
+const (
+	kBool = 1 + iota
+	kInt
+	kInt8
+	kInt16
+	kInt32
+	kInt64
+	kUint
+	kUint8
+	kUint16
+	kUint32
+	kUint64
+	kUintptr
+	kFloat32
+	kFloat64
+	kComplex64
+	kComplex128
+	kArray
+	kChan
+	kFunc
+	kInterface
+	kMap
+	kPtr
+	kSlice
+	kString
+	kStruct
+	kUnsafePointer
+)
+
+var allKinds = func() []int64 {
+	var out []int64
+	for i := int64(0); i <= kUnsafePointer; i++ {
+		out = append(out, i)
+	}
+	return out
+}()
+
+var kindNames = map[int64]string{0: "Invalid", kBool: "Bool", kInt: "Int", kInt8: "Int8", kInt16: "Int16", kInt32: "Int32", kInt64: "Int64", kUint: "Uint", kUint8: "Uint8",
+	kUint16: "Uint16", kUint32: "Uint32", kUint64: "Uint64", kUintptr: "Uintptr", kFloat32: "Float32", kFloat64: "Float64", kComplex64: "Complex64", kComplex128: "Complex128",
+	kArray: "Array", kChan: "Chan", kFunc: "Func", kInterface: "Interface", kMap: "Map", kPtr: "Ptr", kSlice: "Slice", kString: "String", kStruct: "Struct", kUnsafePointer: "UnsafePointer"}
+
+// kindsWhere returns the kinds k for which f can be true with the integer
+// atom kindAtom = k (for some assignment of the other atoms).
+func kindsWhere(f formula, kindAtom string) map[int64]bool {
+	out := map[int64]bool{}
+	for _, k := range allKinds {
+		kk := k
+		_, counter := forAll(f, map[string][]int64{kindAtom: {kk}}, func(e env, fv bool) bool { return !fv })
+		if counter != "" {
+			out[kk] = true
+		}
+	}
+	return out
+}
+
+func kindSetString(m map[int64]bool) string {
+	var names []string
+	for _, k := range allKinds {
+		if m[k] {
+			names = append(names, kindNames[k])
+		}
+	}
+	return "{" + strings.Join(names, ",") + "}"
 }
